@@ -34,7 +34,7 @@ pub fn tr_method(cx: &mut Ctx, m: &ExprMethodCall, expected: Option<&Ty>) -> R<T
     let rty = recv.ty.clone();
     // identity-like adaptors
     match name.as_str() {
-        "clone" | "borrow" | "to_owned" | "as_ref" | "as_slice" | "to_vec" | "copied" | "cloned" | "by_ref" | "into_iter" | "iter"
+        "clone" | "borrow" | "to_owned" | "as_ref" | "as_mut" | "as_slice" | "to_vec" | "copied" | "cloned" | "by_ref" | "into_iter" | "iter"
             if matches!(rty, Ty::List(_) | Ty::Iter(_)) =>
         {
             let el = match &rty {
@@ -127,6 +127,15 @@ pub fn tr_method(cx: &mut Ctx, m: &ExprMethodCall, expected: Option<&Ty>) -> R<T
             }
             "abs" => Ok(Tr::new(format!("((Int.natAbs {} : Nat) : Int)", recv.s), rty.clone())),
             "get" if m.args.is_empty() => Ok(recv.clone()),
+            "saturating_add" => {
+                let a = tr_expr(cx, arg(m, 0)?, Some(&rty))?;
+                let mx = match k {
+                    IntK::I64 | IntK::Isize => "i64Max",
+                    IntK::I32 => "i32Max",
+                    _ => "u64Max",
+                };
+                Ok(Tr::new(format!("(Min.min ({} + {}) {})", recv.s, a.s, mx), rty.clone()))
+            }
             _ => Err(format!("int method .{}", name)),
         },
         Ty::Opt(t) => {
@@ -253,6 +262,10 @@ pub fn tr_method(cx: &mut Ctx, m: &ExprMethodCall, expected: Option<&Ty>) -> R<T
                     Ok(Tr::new(format!("(List.take (Int.toNat {}) {})", n.s, recv.s), it(el)))
                 }
                 "rev" => Ok(Tr::new(format!("(List.reverse {})", recv.s), it(el))),
+                "flatten" | "concat" => match el {
+                    Ty::List(inner) | Ty::Iter(inner) => Ok(Tr::new(format!("(List.flatten {})", recv.s), it(*inner))),
+                    _ => Err("flatten of non-nested list".into()),
+                },
                 "zip" => {
                     let o = tr_expr(cx, arg(m, 0)?, None)?;
                     let oel = match &o.ty {
